@@ -3,6 +3,8 @@
 //verif:dir p2p/net/connmgr
 //verif:shard VerifC14aTrim 12
 //verif:shard VerifC14cEmergency 4
+//verif:shard VerifC14dDecayer 3
+//verif:obligation C14.d decaying tags through the real decayer goroutine (process loop) driven by benbjohnson's mock clock: on every history of 3 (thorough 4) operations from {Bump(delta 1..30), one tick, Remove} with a fixed-step decay function of symbolic step 1..20 and a static tag of symbolic value: after every operation the peer's cached value equals the sum of its static and decaying tag values, and a decaying value that reaches zero or below - also when the decay function overshoots below zero - is removed together with exactly its own contribution
 //verif:obligation C14.a getConnsToClose from an arbitrary manager state: up to 3 (thorough 4) tracked peers with symbolic tag value, temporary flag, first-seen instant, protection, 0..2 connections each (thorough: with symbolic direction and stream count), symbolic watermarks, grace period and clock: no connection of a protected peer or of a peer inside its grace period is selected; nothing is selected when the connection count is at or below the low watermark or the manager is disabled; a peer's connections are selected all or none; otherwise at most low-watermark connections remain among the eligible peers; no peer is closed while a lower-valued eligible (non-temporary, connected) peer is kept
 //verif:obligation C14.b bookkeeping steps: TagPeer / UntagPeer / UpsertTag keep a peer's value equal to the sum of its tags for every tag history step (including re-tagging to zero); Connected / Disconnected keep the connection count equal to the number of tracked connections, ignore duplicates and unknown connections, and a peer that was only tagged before gets its grace period from the moment it connects
 //verif:obligation C14.c getConnsToCloseEmergency: a protected peer's connection is selected only if every connection of every unprotected peer is selected too
@@ -307,4 +309,63 @@ func VerifC14bConnected() {
 	nn.Disconnected(nil, c2)
 	_, still := cm.segments.get(p).peers[p]
 	vAssert(!still && cm.connCount.Load() == 0, "the peer is forgotten with its last connection")
+}
+
+// ---- C14.d: decaying tags through the real decayer goroutine and a mock clock ----
+
+func VerifC14dDecayer() {
+	cm := vC14mgr()
+	mock := clock.NewMock()
+	mock.Set(time.Unix(1_000_000, 0))
+	d, err := NewDecayer(&DecayerCfg{Resolution: time.Minute, Clock: mock}, cm)
+	vAssert(err == nil, "decayer starts")
+	step := vRange(1, 20)
+	tag, err := d.RegisterDecayingTag("decay", time.Minute, connmgr.DecayFixed(step), connmgr.BumpSumUnbounded())
+	vAssert(err == nil, "tag registers")
+	p := vC14ids[0]
+	static := vRange(0, 50)
+	cm.TagPeer(p, "t0", static)
+	settle := func() {
+		for i := 0; i < 12; i++ {
+			vYield()
+		}
+	}
+	check := func() {
+		s := cm.segments.get(p)
+		s.Lock()
+		defer s.Unlock()
+		pi := s.peers[p]
+		if pi == nil {
+			return
+		}
+		sum := 0
+		for _, v := range pi.tags {
+			sum += v
+		}
+		for _, dv := range pi.decaying {
+			sum += dv.Value
+			vAssert(dv.Value > 0, "a decaying value that has reached zero or below is removed")
+		}
+		vAssert(pi.value == sum, "a peer's value equals the sum of its tags, decaying ones included")
+	}
+	for k := 0; k < 3+vTier(); k++ {
+		switch vCase(3) {
+		case 0:
+			tag.Bump(p, vRange(1, 30))
+			settle()
+			vCover("bumped")
+		case 1:
+			mock.Add(time.Minute)
+			settle()
+			vCover("ticked")
+		case 2:
+			tag.Remove(p)
+			settle()
+		}
+		check()
+	}
+	mock.Add(2 * time.Minute)
+	settle()
+	check()
+	d.Close()
 }
